@@ -115,12 +115,13 @@ theorem batchNarrow_result (f : Bool) (a : Nat) (t : Raw) (gs : List GridTag) (d
     simp only [hsem] at h
     have hdata : ∀ p ∈ data.prov, p ∈ t.prov := narrowF_prov_subset dim start len t none data hsem
     -- the grids
-    generalize hgs : (if dim = 0 then
+    generalize (if dim < 0 then dim + (t.ndim : Int) else dim) = D at h
+    generalize hgs : (if D = 0 then
         (if 0 ≤ start ∧ 0 ≤ len then some (pySlice gs start.toNat len.toNat)
          else some (pick gs (sliceIdx gs.length (some start) (some (start + len)) 1)))
-      else if dim > 1 then
-        gs.mapM (fun g => if (t.ndim : Int) - dim - 1 < 0 ∨ (t.ndim : Int) - dim - 1 > (g.shape.length : Int) then none
-          else some (g.narrow ((t.ndim : Int) - dim - 1).toNat start.toNat len.toNat))
+      else if D > 1 then
+        gs.mapM (fun g => if (t.ndim : Int) - D - 1 < 0 ∨ (t.ndim : Int) - D - 1 > (g.shape.length : Int) then none
+          else some (g.narrow ((t.ndim : Int) - D - 1).toNat start.toNat len.toNat))
       else some gs) = ogs at h
     cases ogs with
     | none => simp at h
@@ -254,9 +255,24 @@ theorem alignedV_image_narrow (a0 : Nat) (other : Option SVal) (f : Bool) (t : R
         subst hg0
         simp [itemOf, hs0]
 
-/-- `ImageBatch.narrow` / `FlowFields.narrow` with a non-negative dim literal and non-negative start -/
+theorem normDim_eq_normalised {n : Nat} {d : Int} {k : Nat} (h : normDim n d = some k) :
+    (if d < 0 then d + (n : Int) else d) = (k : Int) := by
+  unfold normDim at h
+  split at h
+  · split at h
+    · cases h
+      rw [if_neg (by omega)]
+      omega
+    · cases h
+  · split at h
+    · cases h
+      rw [if_pos (by omega)]
+      omega
+    · cases h
+
+/-- `ImageBatch.narrow` / `FlowFields.narrow` with any dim (negative dims are normalised) and non-negative start -/
 theorem alignedV_batchNarrow (a0 : Nat) (f : Bool) (a : Nat) (t : Raw) (gs : List GridTag) (dim start len : Int)
-    (hd : 0 ≤ dim) (hs : 0 ≤ start) (hal : AlignedS a0 (.batch f t gs a)) :
+    (hs : 0 ≤ start) (hal : AlignedS a0 (.batch f t gs a)) :
     AlignedV a0 (batchNarrow f a t gs dim start len) := by
   obtain ⟨hcount, _, hprov, hax⟩ := hal
   unfold batchNarrow
@@ -270,6 +286,7 @@ theorem alignedV_batchNarrow (a0 : Nat) (f : Bool) (a : Nat) (t : Raw) (gs : Lis
     | none => simp [hn] at hsem
     | some d =>
       simp only [hn] at hsem
+      rw [normDim_eq_normalised hn]
       have hlt : d < t.shape.length := normDim_lt hn
       have hnot : ¬ start < 0 := by omega
       simp only [hnot, if_false] at hsem
@@ -277,13 +294,11 @@ theorem alignedV_batchNarrow (a0 : Nat) (f : Bool) (a : Nat) (t : Raw) (gs : Lis
       · rw [if_pos hc] at hsem; cases hsem
       · rw [if_neg hc] at hsem
         cases hsem
-        by_cases h0 : dim = 0
+        by_cases h0 : d = 0
         · -- batch dimension: grids sliced like the data
           subst h0
-          have hd0 : d = 0 := normDim_zero hn
-          subst hd0
           have hlen : 0 ≤ len := by omega
-          simp only [if_true, hs, hlen, and_self]
+          simp only [Int.natCast_zero, if_true, hs, hlen, and_self]
           have hn0 : t.shape.getD 0 0 = gs.length := by
             rw [hcount]; cases t.shape <;> rfl
           apply alignedV_makeInstance a0 f a _ _ hax
@@ -292,14 +307,13 @@ theorem alignedV_batchNarrow (a0 : Nat) (f : Bool) (a : Nat) (t : Raw) (gs : Lis
             rw [hn0] at hc
             omega
           · simp only [pySlice, hprov, List.map_take, List.map_drop]
-        · have hd1 : 1 ≤ dim := by omega
-          have hdne : d ≠ 0 := normDim_pos hn hd1
-          simp only [h0, if_false, hdne]
+        · have hdz : ¬ ((d : Int) = 0) := by omega
+          simp only [hdz, if_false, h0]
           have hhead : (setAt t.shape d len.toNat).headD 0 = t.shape.headD 0 := headD_setAt _ _ _ (by omega) hlt
-          by_cases h1 : dim > 1
+          by_cases h1 : (d : Int) > 1
           · simp only [h1, if_true]
-            cases hm : gs.mapM (fun g => if (t.ndim : Int) - dim - 1 < 0 ∨ (t.ndim : Int) - dim - 1 > (g.shape.length : Int)
-                then none else some (g.narrow ((t.ndim : Int) - dim - 1).toNat start.toNat len.toNat)) with
+            cases hm : gs.mapM (fun g => if (t.ndim : Int) - (d : Int) - 1 < 0 ∨ (t.ndim : Int) - (d : Int) - 1 > (g.shape.length : Int)
+                then none else some (g.narrow ((t.ndim : Int) - (d : Int) - 1).toNat start.toNat len.toNat)) with
             | none => exact alignedV_err a0 _
             | some gs' =>
               simp only []
